@@ -402,6 +402,15 @@ class Graph(object):
                 self._hessian[hessian_col_idx: hessian_col_idx + cols, hessian_row_idx: hessian_row_idx + rows] = np.transpose(contrib)
                 # fmt: on
 
+        # A fixed vertex that is not constrained by any edge has no Hessian contribution, so explicitly set its diagonal
+        # block to the identity matrix (otherwise the Hessian would be singular)
+        for v in self._vertices:
+            if v.gradient_index in self._fixed_gradient_indices:
+                n = v.pose.COMPACT_DIMENSIONALITY
+                # fmt: off
+                self._hessian[v.gradient_index: v.gradient_index + n, v.gradient_index: v.gradient_index + n] = np.eye(n)
+                # fmt: on
+
     def optimize(self, tol=1e-4, max_iter=20, fix_first_pose=True, verbose=True):
         r"""Optimize the :math:`\chi^2` error for the ``Graph``.
 
@@ -484,6 +493,10 @@ class Graph(object):
             # Apply the updates
             update_start_time = time.time()
             for v in self._vertices:
+                # Fixed vertices are never updated (even if the linear solve failed and `dx` is not finite)
+                if v.gradient_index in self._fixed_gradient_indices:
+                    continue
+
                 # fmt: off
                 v.pose += dx[v.gradient_index: v.gradient_index + v.pose.COMPACT_DIMENSIONALITY]
                 # fmt: on
